@@ -248,7 +248,8 @@ class Component( ComponentLevel7 ):
         written._dsl.needs_double_buffer = True
 
     for blk, obj_name in provided_upblk_calls:
-      parent._dsl.upblk_calls[blk].add( eval(obj_name) )
+      # the block may belong to an ancestor of parent
+      top._dsl.all_upblk_hostobj[blk]._dsl.upblk_calls[blk].add( eval(obj_name) )
 
     for func, obj_name in provided_func_reads:
       parent._dsl.func_reads[func].add( eval(obj_name) )
@@ -386,14 +387,19 @@ class Component( ComponentLevel7 ):
             saved_upblk_writes.append( (blk, repr(x)) )
         parent._dsl.upblk_writes[blk] -= to_save
 
-      for blk, calls in parent._dsl.upblk_calls.items():
-        assert blk in top._dsl.all_upblk_calls
-        to_save = set()
-        for x in calls:
-          if x in removed_connectables:
-            to_save.add( x )
-            saved_upblk_calls.append( (blk, repr(x)) )
-        parent._dsl.upblk_calls[blk] -= to_save
+      # Method ports and method interfaces (which are not connectables
+      # themselves) can be called from any level above, too
+      removed_callables = removed_connectables | \
+                          foo._collect_all_single( lambda x: isinstance( x, Interface ) )
+      for host in hosts:
+        for blk, calls in host._dsl.upblk_calls.items():
+          assert blk in top._dsl.all_upblk_calls
+          to_save = set()
+          for x in calls:
+            if x in removed_callables:
+              to_save.add( x )
+              saved_upblk_calls.append( (blk, repr(x)) )
+          host._dsl.upblk_calls[blk] -= to_save
 
       # We need to save the information for funcs too
       for func, reads in parent._dsl.func_reads.items():
